@@ -51,7 +51,7 @@ def floors(tier):
     return {'evaluations': 30000, 'distinct_nontrivial': 10000, 'errors_located': 15000,
             'faults_injected': 20000, 'histkeys:fault': 9, 'legacy_api_errors': 3000,
             'custom_context_soups': 500, 'parser_class_context_soups': 1000, 'parses_from_configured_state': 2000,
-            'stop_condition_entry_points': 3000, 'bodies_without_their_closing_token': 300, 'truncated_documents_parsed_before_injection': 500,
+            'stop_condition_entry_points': 3000, 'bodies_without_their_closing_token': 300, 'module_level_function_calls': 3000, 'truncated_documents_parsed_before_injection': 500,
             'failed_parse_inside_verbatim_then_stray_brace': 20, 'histkeys:numbering': 2, 'hist:numbering:line_number_offset': 5000}
 
 
@@ -78,6 +78,14 @@ def strict_outcome(s, ctx, api, psopts=None, numbering=None):
         elif api == 'single-node':
             from pylatexenc.latexnodes.parsers import LatexSingleNodeParser
             nl, _ = lw.parse_content(LatexSingleNodeParser())
+        elif api == 'module-level':
+            # the pylatexenc-1 style module-level function, parse flags passed through keyword arguments
+            from pylatexenc import latexwalker as _LWM
+            if ctx is None:
+                from ..util import default_ctx
+                ctx = default_ctx()
+            ctx.freeze()
+            nl = _LWM.get_latex_nodes(s, tolerant_parsing=False, latex_context=ctx, **(numbering or {}))[0]
         elif api.startswith('legacy-body-of-env:'):
             # the legacy entry point reading the body of an environment / a group whose opener the caller has consumed
             nl = lw.get_latex_nodes(stop_upon_end_environment=api.split(':', 1)[1])[0]
@@ -118,6 +126,9 @@ def check_case(case, rec):
     if 'apis' not in case and len(s) % 4 == 1:
         apis = apis + ['legacy-max%d' % (1 + len(s) % 3), 'single-node']
         rec.monitor('stop_condition_entry_points')
+    if 'apis' not in case and len(s) % 4 == 2 and not case.get('psopts'):
+        apis = apis + ['module-level']
+        rec.monitor('module_level_function_calls')
     psopts = case.get('psopts')
     if psopts:
         rec.monitor('parses_from_configured_state')
@@ -251,7 +262,10 @@ def run_shard(desc, rec):
                     rec.case()
                     rec.monitor('faults_injected')
                     rec.hist('fault', f)
-                    case = {'s': s2, 'ctx': cdesc, 'must_raise': True, 'fault': fault, 'at': b, 'apis': ['new']}
+                    case = {'s': s2, 'ctx': cdesc, 'must_raise': True, 'fault': fault, 'at': b,
+                            'apis': ['new', 'module-level'] if (b + len(s2)) % 6 == 0 else ['new']}
+                    if len(case['apis']) > 1:
+                        rec.monitor('module_level_function_calls')
                     if (i * 131 + b) % 4001 == 0:
                         rec.sample({'document': s, 'fault': fault, 'at': b})
                     check_case(case, rec)
